@@ -19,6 +19,9 @@ func init() {
 				return "err " + errKind(err)
 			}
 			r, s := sig.R(), sig.S()
+			if m := sigObjectStable(sig, bytesRepeat(0x5a, 32)); m != "" {
+				return "ok " + scalarHex(&r) + " " + scalarHex(&s) + " " + m
+			}
 			return "ok " + scalarHex(&r) + " " + scalarHex(&s)
 		})
 	}
@@ -26,7 +29,12 @@ func init() {
 		var r, s secp.ModNScalar
 		r.SetByteSlice(unhx(a[0]))
 		s.SetByteSlice(unhx(a[1]))
-		return hx(secp.NewSignature(&r, &s).Serialize())
+		sig := secp.NewSignature(&r, &s)
+		out := hx(sig.Serialize())
+		if m := sigObjectStable(sig, bytesRepeat(0x5a, 32)); m != "" {
+			return m
+		}
+		return out
 	}
 	generators["C09"] = genC09
 }
